@@ -6,8 +6,8 @@ let n_of_int n = if n = 0 then Model.N0 else Model.Npos (pos_of_int n)
 let rec int_of_pos = function Model.XH -> 1 | Model.XO p -> 2 * int_of_pos p | Model.XI p -> 2 * int_of_pos p + 1
 let int_of_n = function Model.N0 -> 0 | Model.Npos p -> int_of_pos p
 
-let byte_tbl = Array.init 256 (fun i -> match Model.of_N (n_of_int i) with Some b -> b | None -> failwith "byte")
-let int_of_byte b = int_of_n (Model.to_N b)
+let byte_tbl = Array.init 256 (fun i -> match Model.byte_of_n (n_of_int i) with Some b -> b | None -> failwith "byte")
+let int_of_byte b = int_of_n (Model.byte_to_n b)
 
 let bytes_of_string (s : string) =
   let rec go i acc = if i < 0 then acc else go (i - 1) (byte_tbl.(Char.code s.[i]) :: acc) in
